@@ -120,7 +120,7 @@ func c04verdict(c *Ctx, r *Report, rule string) {
 				// every data-returning exit is dominated by the nil edge of this Close
 				all := true
 				for _, ret := range returnsOf(fn) {
-					if isErrorExit(ret) || isNilConst(ret.Results[0]) {
+					if isErrorExit(ret) || isNilConst(resOf(ret, 0)) {
 						continue
 					}
 					if !okEdgeDominates(k.Value(), ret.Block()) {
@@ -136,7 +136,7 @@ func c04verdict(c *Ctx, r *Report, rule string) {
 			for _, rd := range reads {
 				if rv := rd.Value(); rv != nil && errResult(rv) != nil {
 					for _, ret := range returnsOf(fn) {
-						if isErrorExit(ret) || isNilConst(ret.Results[0]) {
+						if isErrorExit(ret) || isNilConst(resOf(ret, 0)) {
 							continue
 						}
 						if !okEdgeDominates(rv, ret.Block()) {
@@ -177,7 +177,7 @@ func c04verdict(c *Ctx, r *Report, rule string) {
 		default:
 			good := true
 			for _, ret := range returnsOf(fn) {
-				if !isNilConst(ret.Results[0]) && !okEdgeDominates(dataCall, ret.Block()) {
+				if !isNilConst(resOf(ret, 0)) && !okEdgeDominates(dataCall, ret.Block()) {
 					good = false
 				}
 			}
@@ -340,7 +340,7 @@ func c04closeVerdict(c *Ctx, r *Report, rule string) {
 	where := fnName(fn)
 	var nilRets []*ssa.Return
 	for _, ret := range returnsOf(fn) {
-		if isNilConst(ret.Results[0]) {
+		if isNilConst(resOf(ret, 0)) {
 			nilRets = append(nilRets, ret)
 		}
 	}
